@@ -20,7 +20,7 @@ def extra(r, exe, thorough):
         r.notes.append("valgrind not found: memcheck slice skipped")
         return
     log = os.path.join(core.BUILD, "runs", "memcheck-c12-%d.log" % os.getpid())
-    cases, sums, notes = core.run_child_cases(exe, "hist", r.seed + 11, "quick", 0, 1, extra={"mon": "c12", "n": 10, "batch": 50, "nosynth": 1}, timeout=1800,
+    cases, sums, notes = core.run_child_cases(exe, "hist", r.seed + 11, "quick", 0, 1, extra={"mon": "c12", "n": 10, "batch": 50, "nosynth": 1, "valgrind": 1}, timeout=1800,
                                              prefix=[vg, "--tool=memcheck", "--smc-check=all", "--quiet", "--log-file=" + log])
     errs, txt = 0, ""
     if os.path.exists(log):
